@@ -45,6 +45,17 @@ fn run<G: Rng>(mut r: Random<G>, kind: &str, n: usize, k: usize, samples: u64, h
 				None => "none".into(),
 			},
 			"index" => r.index(n).to_string(),
+			// large slices: in which quarter of the slice does element `k` end up (shuffle) / from which quarter does the element at position `k` come (partial_shuffle(k+1))
+			"shufpos" => {
+				let mut a = items.clone();
+				r.shuffle(&mut a[..]);
+				(a.iter().position(|&x| x == k as u64).unwrap_or(usize::MAX) * 4 / n).to_string()
+			}
+			"pshufpos" => {
+				let mut a = items.clone();
+				r.partial_shuffle(&mut a[..], k + 1);
+				(a[k] as usize * 4 / n).to_string()
+			}
 			_ => return Err(Bad),
 		};
 		*counts.entry(outcome).or_insert(0) += 1;
@@ -60,7 +71,7 @@ pub fn stat(req: &Req) -> R<String> {
 	let samples = req.u64("samples")?;
 	let seed = req.u64("seed")?;
 	let hint = req.opt("hint");
-	if samples > 50_000_000 || n > 64 {
+	if samples > 50_000_000 || (n > 64 && !kind.ends_with("pos")) || n > 1 << 22 {
 		return Err(Bad);
 	}
 	match req.opt("gen").unwrap_or("xoshiro") {
